@@ -27,7 +27,7 @@ RULE = (
 )
 ASSUMPTIONS = ["names contain no line breaks (control characters are outside the domain)"]
 BUDGET = {"quick": (220, 4), "thorough": (32000, 16)}
-REQUIRED = ["nested", "multi_action_file", "no_history", "sf_noroot", "sf_root", "deep_nesting"]
+REQUIRED = ["nested", "multi_action_file", "no_history", "sf_noroot", "sf_root", "sf_relative", "deep_nesting", "renamed_file"]
 
 CFG = {
     "kinds": ["create"] * 6 + ["create_sf"] * 2 + ["put_new", "overwrite", "overwrite", "restore"],
@@ -41,8 +41,29 @@ GEN_RE = re.compile(r"^  Generation (\d+) \((.*)\)$")
 SF_RE = re.compile(r"^  Generation (\d+) \((.*?)\) (\w+): (\S+) \((\w+)\)$")
 
 
+@st.composite
+def _scn(draw):
+    scn = draw(hist.scenarios_deep(CFG))
+    if draw(st.integers(0, 2)) == 0:
+        # a recorded file is renamed and sealed with rename detection: info -sf NEWNAME lists what is recorded under NEWNAME
+        m = hist.GenModel(scn["tree"])
+        for s_ in scn["steps"]:
+            m.apply(s_)
+        if m.files and m.roots:
+            src = draw(st.sampled_from(sorted(m.files)))
+            dst = src + ".renamed"
+            if dst not in m.files and dst not in m.dirs:
+                scn["steps"].append({"op": "create", "root": "", "formats": draw(gen.formats(2)), "flags": []})
+                scn["steps"].append({"op": "mv", "src": src, "dst": dst})
+                scn["steps"].append({"op": "create", "root": "", "formats": draw(gen.formats(2)), "flags": ["-dr"]})
+                if draw(st.booleans()):
+                    scn["steps"].append({"op": "create", "root": "", "formats": draw(gen.formats(2)), "flags": []})
+    scn["cwd"] = draw(st.sampled_from(["parent", "filedir", "base"]))
+    return scn
+
+
 def strategy(tier):
-    return hist.scenarios_deep(CFG)
+    return _scn()
 
 
 def parse_info(out):
@@ -123,8 +144,18 @@ def run_case(scn, ctx):
             if checked >= 10:
                 break
             checked += 1
-            for form in ("noroot", "root"):
-                res = w.info(None if form == "noroot" else h, sf=[full])
+            import os as _os
+
+            for form in ("noroot", "root", "relative"):
+                if form == "relative":
+                    # the file named relative to the working directory (which is not the history root)
+                    cwd = {"parent": _os.path.dirname(w.abs(h)) if h else w.base, "filedir": _os.path.dirname(w.abs(full)), "base": w.base}[scn.get("cwd", "base")]
+                    relarg = _os.path.relpath(w.abs(full), cwd)
+                    if relarg.startswith("-"):
+                        relarg = "./" + relarg
+                    res = w.run("info", ["-sf", relarg], cwd=cwd)
+                else:
+                    res = w.info(None if form == "noroot" else h, sf=[full])
                 require(res.exc is None and res.exit_code == 0, "sf-exit", res.brief(), res)
                 out = res.stdout.splitlines()
                 require(len(out) >= 2 and out[0] == "Info with history at path: " + w.abs(h), "sf-history", "first line %r, nearest history %r" % (out[:1], w.abs(h)), res)
@@ -139,6 +170,8 @@ def run_case(scn, ctx):
                 feats.add("sf_" + form)
             if len(lines) >= 3 and len({x[4] for x in lines}) >= 2:
                 feats.add("multi_action_file")
+            if any(rec["previous"] for hh in roots for n_, p_, d_ in docs[hh] for rec in d_["records"] if hh == h and rec["path"] == relp):
+                feats.add("renamed_file")
         for f in feats:
             ctx.event(f)
         ctx.mark_nontrivial("nested" in feats or "multi_action_file" in feats)
